@@ -3,6 +3,7 @@
 From Coq Require Import ZArith Lia List.
 From Trzsz Require Import Base.Bytes Gen.Consts Model.Path Model.Fs Model.Names Model.Wire
   Model.Transfer Model.Protocol Model.FaultTie Proofs.Protocol.
+From Trzsz Require Model.Resume.
 Import ListNotations.
 
 Section FaultTieProofs.
@@ -12,11 +13,13 @@ Variable deq : digest -> digest -> bool.
 Hypothesis deq_spec : forall a b, deq a b = true <-> a = b.
 Variable zdecomp : list byte -> option (list byte).
 Variable unzl : list byte -> option (list byte).
+Variable hx : list byte -> Resume.digest.
+Variable aparse : list byte -> option (src * Z).
 
 Notation msg := (tr_msg digest).
-Notation receiver := (tr_receiver digest H deq zdecomp unzl).
-Notation feed := (ft_feed digest H deq zdecomp unzl).
-Notation run := (ft_run digest H deq zdecomp unzl).
+Notation receiver := (tr_receiver digest H deq zdecomp unzl hx aparse).
+Notation feed := (ft_feed digest H deq zdecomp unzl hx aparse).
+Notation run := (ft_run digest H deq zdecomp unzl hx aparse).
 Notation line_of := (ft_line digest).
 Notation dec := (ft_decode zdecomp).
 Notation dec1 := (ft_decode1 unzl).
@@ -73,18 +76,29 @@ Proof.
   destruct (tr_json_names c && (0 <? _)); cbn [snd]; apply R.
 Qed.
 
+(* the answers to HASH records are no digest replies *)
+Lemma nd_map_hack l : no_digest (map (tr_hack digest) l).
+Proof. intros x I. apply in_map_iff in I. destruct I as (y & E & _). discriminate. Qed.
+
+Lemma nd_hash st p leaf old sz r step h : no_digest (snd (tr_r_hash digest hx st p leaf old sz r step h)).
+Proof.
+  unfold tr_r_hash. destruct (Resume.recv_hashes _ _ _ _ _); try apply nd_fail. cbn [snd]. apply nd_map_hack.
+Qed.
+
 Lemma nd_size c st p n : no_digest (snd (tr_r_size digest c st p n)).
 Proof.
-  unfold tr_r_size. destruct (tr_pipeline c).
+  unfold tr_r_size. destruct (tr_rest_mismatch st n); [cbn [snd]; apply nd_cons; [reflexivity | apply nd_cons; [reflexivity | apply nd_nil]]|].
+  destruct (tr_pipeline c).
   - destruct (tr_is_compress_fixed c n) as [[|] cp]; cbn [snd]; (apply nd_cons; [reflexivity | apply nd_nil]).
   - destruct (0 <? n); cbn [snd]; (apply nd_cons; [reflexivity | apply nd_nil]).
 Qed.
 
-Lemma nd_frame c st p size cp acc steps f : no_digest (snd (tr_r_frame digest zdecomp c st p size cp acc steps f)).
+Lemma nd_frame c st p size cp acc steps f : no_digest (snd (tr_r_frame digest zdecomp aparse c st p size cp acc steps f)).
 Proof.
   unfold tr_r_frame. destruct f as [|b f]; [|cbn [snd]; apply nd_cons; [reflexivity | apply nd_nil]].
   destruct (wire_decode _ _ _ _ _ _ _) as [w|]; [|apply nd_fail].
-  destruct (tr_blen w =? size); [|apply nd_fail]. cbn [snd].
+  destruct (tr_blen w =? size); [|apply nd_fail].
+  destruct (tr_p_archive p && _); [apply nd_fail|]. cbn [snd].
   apply nd_app; [apply nd_cons; [reflexivity | apply nd_nil]|].
   apply nd_app; [apply nd_map_int | apply nd_cons; [reflexivity | apply nd_nil]].
 Qed.
@@ -98,16 +112,16 @@ Qed.
 Ltac nd_tac :=
   let I := fresh "I" in
   intro I; exfalso; revert I;
-  first [apply nd_fail | apply nd_name | apply nd_size | apply nd_frame | apply nd_v1 | apply nd_nil].
+  first [apply nd_fail | apply nd_name | apply nd_size | apply nd_frame | apply nd_v1 | apply nd_hash | apply nd_nil].
 
 Lemma ft_digest_answer c dest st m x :
   In (TrSuccDigest digest x) (snd (receiver c dest st m)) ->
   exists p w d, rs_phase st = RpMd5 p w /\ m = TrMd5 digest d /\ deq d (H w) = true /\ x = H w.
 Proof.
   unfold tr_receiver.
-  destruct (rs_phase st) as [| |p|p size|p size cp acc steps|p size w|p w| | | |] eqn:Ph;
+  destruct (rs_phase st) as [| |p lf od|p lf od sz rr|p|p size|p size cp acc steps|p size w|p w| | |] eqn:Ph;
     try nd_tac.
-  all: destruct m as [mn|mp|mn|mb|mf|md|mnames|mn|mnm|mnm msz|mlen mstp|md| |]; try nd_tac.
+  all: destruct m as [mn|mp|mn|mb|mf|md|mnames|hs hh| |mn|mnm|mnm msz|mlen mstp|md|hs hm| |]; try nd_tac.
   - (* RpNum, TrNum *)
     intro I. exfalso. revert I.
     pose proof (nd_next c (N.to_nat mn) (rs_st st) (rs_names st) (rs_sched st)) as B.
@@ -115,7 +129,7 @@ Proof.
     cbn [snd] in *. apply nd_cons; [reflexivity | exact B].
   - (* RpMd5, TrMd5 *)
     unfold tr_r_md5. destruct (deq md (H w)) eqn:Q; [|nd_tac].
-    destruct (tr_create c dest p w (rs_st st)) as [[ln|] st2]; [|nd_tac].
+    destruct (tr_complete aparse c dest st p w) as [st2|]; [|nd_tac].
     intro I. exists p, w, md. split; [reflexivity|]. split; [reflexivity|]. split; [exact Q|].
     unfold tr_r_done in I.
     pose proof (nd_next c (pred (rs_left st)) st2 (rs_names st) (tl (rs_sched st))) as B.
@@ -174,7 +188,7 @@ Proof.
 Qed.
 
 Lemma inv_phase_trivial c st g : (match rs_phase st with
-    | RpNum | RpName | RpSize _ | RpExit | RpDone | RpFail | RpUnmodelled => True | _ => False end) -> ft_inv c st g.
+    | RpNum | RpName | RpHSize _ _ _ | RpHash _ _ _ _ _ | RpSize _ | RpExit | RpDone | RpFail => True | _ => False end) -> ft_inv c st g.
 Proof. unfold ft_inv. destruct (rs_phase st); intro F; try exact I; contradiction. Qed.
 
 Lemma inv_fail c st g : ft_inv c (fst (tr_r_fail digest st)) g.
@@ -202,7 +216,7 @@ Proof.
   unfold tr_r_name. destruct (tr_create c dest p [] (rs_st st)) as [[ln|] st1]; [|apply inv_fail].
   destruct (tr_p_archive p); [apply inv_phase_trivial; exact I|].
   destruct (tr_p_isdir p); [apply inv_done|].
-  destruct (tr_json_names c && (0 <? _)); apply inv_phase_trivial; exact I.
+  destruct (tr_json_names c && (0 <? _)); [destruct (tc_proto c <? _)|]; apply inv_phase_trivial; exact I.
 Qed.
 
 Ltac inv_easy := first [solve [apply inv_phase_trivial; exact I] | solve [apply inv_fail]].
@@ -211,16 +225,21 @@ Lemma ft_inv_step c dest st m g :
   ft_inv c st g -> ft_inv c (fst (receiver c dest st m)) (ft_ghost_step digest c st m g).
 Proof.
   intro Inv. unfold tr_receiver, ft_ghost_step. unfold ft_inv in Inv.
-  destruct (rs_phase st) as [| |p|p size|p size cp acc steps|p size w|p w| | | |] eqn:Ph.
+  destruct (rs_phase st) as [| |p lf od|p lf od sz rr|p|p size|p size cp acc steps|p size w|p w| | |] eqn:Ph.
   - (* RpNum *)
-    destruct m as [mn|mp|mn|mb|mf|md|mnames|mn|mnm|mnm msz|mlen mstp|md| |]; try inv_easy.
+    destruct m as [mn|mp|mn|mb|mf|md|mnames|hs hh| |mn|mnm|mnm msz|mlen mstp|md|hs hm| |]; try inv_easy.
     pose proof (inv_next c (N.to_nat mn) (rs_st st) (rs_names st) (rs_sched st)) as P.
     destruct (tr_r_next digest c (N.to_nat mn) (rs_st st) (rs_names st) (rs_sched st)). apply P.
   - (* RpName *)
-    destruct m as [mn|mp|mn|mb|mf|md|mnames|mn|mnm|mnm msz|mlen mstp|md| |]; try inv_easy. apply inv_name.
+    destruct m as [mn|mp|mn|mb|mf|md|mnames|hs hh| |mn|mnm|mnm msz|mlen mstp|md|hs hm| |]; try inv_easy. apply inv_name.
+  - (* RpHSize: the source size of a resume, not echoed *)
+    destruct m as [mn|mp|mn|mb|mf|md|mnames|hs hh| |mn|mnm|mnm msz|mlen mstp|md|hs hm| |]; inv_easy.
+  - (* RpHash: HASH records and Over *)
+    destruct m as [mn|mp|mn|mb|mf|md|mnames|hs hh| |mn|mnm|mnm msz|mlen mstp|md|hs hm| |]; try inv_easy.
+    unfold tr_r_hash. destruct (Resume.recv_hashes _ _ _ _ _); inv_easy.
   - (* RpSize *)
-    destruct m as [mn|mp|mn|mb|mf|md|mnames|mn|mnm|mnm msz|mlen mstp|md| |]; try inv_easy.
-    unfold tr_r_size. destruct (tr_pipeline c) eqn:Pp.
+    destruct m as [mn|mp|mn|mb|mf|md|mnames|hs hh| |mn|mnm|mnm msz|mlen mstp|md|hs hm| |]; try inv_easy.
+    unfold tr_r_size. destruct (tr_rest_mismatch st mn); [inv_easy|]. destruct (tr_pipeline c) eqn:Pp.
     + destruct (tr_is_compress_fixed c mn) as [[|] cpx] eqn:Fx; cbn [fst snd]; unfold ft_inv; cbn.
       * repeat split; auto.
       * split; [exact Pp | reflexivity].
@@ -229,15 +248,16 @@ Proof.
       * split; [exact Z0|]. intros fuel rest. apply rv1_md5. exact Z0.
   - (* RpComp *)
     destruct Inv as [Pp Es].
-    destruct m as [mn|mp|mn|mb|mf|md|mnames|mn|mnm|mnm msz|mlen mstp|md| |]; try inv_easy.
+    destruct m as [mn|mp|mn|mb|mf|md|mnames|hs hh| |mn|mnm|mnm msz|mlen mstp|md|hs hm| |]; try inv_easy.
     unfold ft_inv; cbn. repeat split; auto.
   - (* RpData *)
     destruct Inv as (Pp & Es & Ec & Eq).
-    destruct m as [mn|mp|mn|mb|mf|md|mnames|mn|mnm|mnm msz|mlen mstp|md| |]; try inv_easy.
+    destruct m as [mn|mp|mn|mb|mf|md|mnames|hs hh| |mn|mnm|mnm msz|mlen mstp|md|hs hm| |]; try inv_easy.
     + (* TrData *)
       unfold tr_r_frame. destruct mf as [|b f].
       * destruct (wire_decode zdecomp (tc_binary c) cp (tc_table c) acc [] tr_rdflt) as [w|] eqn:D; [|inv_easy].
         destruct (tr_blen w =? size) eqn:S; [|inv_easy].
+        destruct (tr_p_archive p && _); [inv_easy|].
         cbn [fst]. unfold ft_inv; cbn. rewrite Pp. apply N.eqb_eq in S. subst size cp.
         split; [exact S|]. intro rest. rewrite map_app, <- app_assoc. cbn [map app ft_line].
         rewrite Eq. cbn [recv_v2_sched]. unfold ft_decode at 1. rewrite D.
@@ -250,7 +270,7 @@ Proof.
       rewrite map_app, <- app_assoc. cbn [map app ft_line]. rewrite Eq. reflexivity.
   - (* RpV1 *)
     destruct Inv as (Pp & Es & Lt & Eq).
-    destruct m as [mn|mp|mn|mb|mf|md|mnames|mn|mnm|mnm msz|mlen mstp|md| |]; try inv_easy.
+    destruct m as [mn|mp|mn|mb|mf|md|mnames|hs hh| |mn|mnm|mnm msz|mlen mstp|md|hs hm| |]; try inv_easy.
     unfold tr_r_v1. destruct (wire_v1_decode unzl (tc_binary c) (tc_table c) mf) as [ch|] eqn:D; [|inv_easy].
     assert (Step : forall fuel rest,
       rv1 c (length (fg_msgs digest g ++ [TrData digest mf]) + fuel) (Z.of_N size) []
@@ -262,12 +282,11 @@ Proof.
     + repeat split; auto.
     + split; [exact L2|]. intros fuel rest. rewrite Step. apply rv1_md5. exact L2.
   - (* RpMd5 *)
-    destruct m as [mn|mp|mn|mb|mf|md|mnames|mn|mnm|mnm msz|mlen mstp|md| |]; try inv_easy.
+    destruct m as [mn|mp|mn|mb|mf|md|mnames|hs hh| |mn|mnm|mnm msz|mlen mstp|md|hs hm| |]; try inv_easy.
     unfold tr_r_md5. destruct (deq md (H w)); [|inv_easy].
-    destruct (tr_create c dest p w (rs_st st)) as [[ln|] st2]; [|inv_easy].
+    destruct (tr_complete aparse c dest st p w) as [st2|]; [|inv_easy].
     apply inv_done.
-  - (* RpExit *) destruct m as [mn|mp|mn|mb|mf|md|mnames|mn|mnm|mnm msz|mlen mstp|md| |]; inv_easy.
-  - apply inv_phase_trivial. cbn. rewrite Ph. exact I.
+  - (* RpExit *) destruct m as [mn|mp|mn|mb|mf|md|mnames|hs hh| |mn|mnm|mnm msz|mlen mstp|md|hs hm| |]; inv_easy.
   - apply inv_phase_trivial. cbn. rewrite Ph. exact I.
   - apply inv_phase_trivial. cbn. rewrite Ph. exact I.
 Qed.
@@ -276,6 +295,7 @@ Lemma ft_inv_init c f0 sch : ft_inv c (tr_receiver_init f0 sch) (ft_ghost0 diges
 Proof. exact I. Qed.
 
 Notation verdict_of := (ft_verdict digest H deq zdecomp unzl).
+Notation receive := (ft_receive digest H deq zdecomp unzl hx aparse).
 
 (* every recorded file: the machine was waiting for its MD5 message, answered it with
    SUCC:<digest>, and the per-file decision model ACCEPTS exactly the lines delivered for it,
@@ -294,8 +314,8 @@ Proof.
   specialize (IH st1 (ft_ghost_step digest c st m g) Inv1 sv).
   destruct (run c dest st1 (ft_ghost_step digest c st m g) r) as [[st2 outs2] svs]. cbn [snd] in *.
   intro In1. apply in_app_or in In1. destruct In1 as [In1|In1]; [|exact (IH In1)]. clear IH.
-  destruct (rs_phase st) as [| |p|p size|p size cp acc steps|p size w|p w| | | |] eqn:Ph; try (destruct In1; fail).
-  destruct m as [mn|mp|mn|mb|mf|md|mnames|mn|mnm|mnm msz|mlen mstp|md| |]; try (destruct In1; fail).
+  destruct (rs_phase st) as [| |p lf od|p lf od sz rr|p|p size|p size cp acc steps|p size w|p w| | |] eqn:Ph; try (destruct In1; fail).
+  destruct m as [mn|mp|mn|mb|mf|md|mnames|hs hh| |mn|mnm|mnm msz|mlen mstp|md|hs hm| |]; try (destruct In1; fail).
   destruct (existsb (ft_is_digest digest) outs) eqn:Ex; [|destruct In1].
   destruct In1 as [<-|[]]. cbn [fv_before fv_payload fv_content fv_md5 fv_after fv_size fv_cp fv_msgs].
   apply existsb_exists in Ex. destruct Ex as (o & Io & Eo). destruct o; try discriminate.
@@ -310,7 +330,7 @@ Proof.
 Qed.
 
 Theorem ft_receive_bridge c dest f0 sch ms sv :
-  In sv (snd (ft_receive digest H deq zdecomp unzl c dest f0 sch ms)) ->
+  In sv (snd (receive c dest f0 sch ms)) ->
   rs_phase (fv_before digest sv) = RpMd5 (fv_payload digest sv) (fv_content digest sv) /\
   fst (receiver c dest (fv_before digest sv) (TrMd5 digest (fv_md5 digest sv))) = fv_after digest sv /\
   In (TrSuccDigest digest (H (fv_content digest sv)))
@@ -320,7 +340,7 @@ Proof. exact (ft_saved_bridge c dest ms _ _ (ft_inv_init c f0 sch) sv). Qed.
 
 (* what acceptance by the decision model means (Proofs/Protocol.v), read off the saved record *)
 Theorem ft_saved_sound c dest f0 sch ms sv :
-  In sv (snd (ft_receive digest H deq zdecomp unzl c dest f0 sch ms)) ->
+  In sv (snd (receive c dest f0 sch ms)) ->
   fv_md5 digest sv = H (fv_content digest sv) /\
   (tr_pipeline c = true -> tr_blen (fv_content digest sv) = fv_size digest sv) /\
   (tr_pipeline c = false -> fv_size digest sv <= tr_blen (fv_content digest sv)).
@@ -339,7 +359,7 @@ Qed.
    source, unless the delivered digest value was forged to the digest of the damaged content or
    MD5 collides on the pair.  Proved THROUGH the per-file theorems of Proofs/Protocol.v. *)
 Theorem ft_no_silent c dest f0 sch ms sv src :
-  In sv (snd (ft_receive digest H deq zdecomp unzl c dest f0 sch ms)) ->
+  In sv (snd (receive c dest f0 sch ms)) ->
   unforged digest H src (fv_content digest sv) (fv_md5 digest sv) ->
   collision_free_on digest H src (fv_content digest sv) ->
   fv_content digest sv = src.
